@@ -786,6 +786,22 @@ class Multi:
         return a
 
 
+class Nested:
+    """Two private names, one of which ends like the other (``__c`` and ``__b__c``): one prefix mangles them all."""
+
+    def __init__(self):
+        self.__c = 1
+        self.__b__c = 1
+
+    @icontract.require(lambda self, a: self.__c > a and self.__b__c > a, description="D:private-name-ending-like-another"{ek})
+    def both(self, a):
+        return a
+
+    @icontract.require(lambda self, a: self.__c > a, description="D:private-name-alone-next-to-a-longer-attribute"{ek})
+    def one(self, a):
+        return a
+
+
 class _Hidden:
     def __init__(self):
         self.__v = 1
@@ -808,7 +824,8 @@ def run_private_names(w) -> None:
                        ("guarded", mod.Account().guarded), ("post", mod.Account().post), ("global", mod.Account().global_name),
                        ("nested-class", mod.Account.Inner().nested), ("underscored-class", mod._Hidden().underscored),  # pylint: disable=protected-access
                        ("dunder-in-class-name", mod.My__Box().put), ("dunder-in-class-name-genexp", mod.My__Box().put_all),
-                       ("two-private-names", mod.Multi().both)]
+                       ("two-private-names", mod.Multi().both), ("private-name-ending-like-another", mod.Nested().both),
+                       ("private-name-alone-next-to-a-longer-attribute", mod.Nested().one)]
             for tag, fn in targets:
                 for arg in (4, 0):
                     w.count("violating_calls")
@@ -966,12 +983,43 @@ def g(xs):
     return xs
 
 
+import functools
+
+
+def between(x, low, high):
+    return low <= x <= high
+
+
+@icontract.require(functools.partial(between, low=0, high=10))
+def with_partial(x):
+    return x
+
+
+class InRange:
+    def __init__(self, low, high):
+        self.low, self.high = low, high
+
+    def __call__(self, x):
+        return self.low <= x <= self.high
+
+
+@icontract.require(InRange(0, 10))
+@icontract.ensure(InRange(0, 10), error=lambda x: KeyError(x))
+def with_callable_object(x):
+    return x
+
+
 make_with_unbound_closure_variable()
 attempt("callee-equal-to-everything-over-a-generator", lambda: g([1, 2]))
+attempt("condition-given-as-a-partial", lambda: with_partial(50))
+attempt("condition-given-as-a-callable-object", lambda: with_callable_object(50))
+attempt("satisfied-partial-and-callable-object", lambda: (with_partial(5), with_callable_object(5)))
 '''
 
 CORNER_TEXTS = {"unbound-closure-variable-not-evaluated": "x > 0 and helper(x)", "closure-variable-bound-later": "x > 0 and helper(x)",
-                "callee-equal-to-everything-over-a-generator": "agreeable(x > 0 for x in xs)"}
+                "callee-equal-to-everything-over-a-generator": "agreeable(x > 0 for x in xs)",
+                # (a condition which is no function has no source text of its own: only the kind of the error is demanded)
+                "condition-given-as-a-partial": "", "condition-given-as-a-callable-object": "", "satisfied-partial-and-callable-object": None}
 
 
 def run_corner_conditions(w) -> None:
@@ -986,6 +1034,10 @@ def run_corner_conditions(w) -> None:
             w.count("corner_conditions")
             w.case(("corner-condition", tag))
             text = CORNER_TEXTS[tag]
+            if text is None:
+                if outcome != "returned":
+                    w.violation("C07/violation-not-surfaced/" + tag, "satisfied conditions gave {} {!r}".format(outcome, err), {"corner_condition": tag})
+                continue
             if outcome != "raised" or not isinstance(err, icontract.ViolationError) or text not in str(err):
                 w.violation("C07/violation-not-surfaced/" + tag, "the falsy condition `{}` gave {} {}: {!r}".format(
                     text, outcome, type(err).__name__, str(err)[:300]), {"corner_condition": tag})
